@@ -509,7 +509,7 @@ def rule_R6(ctx, repo, eng, imm, mut, rid='C09.R6'):
             want = '%s.__class__ is %s' % (arg, c.name)
             alt = 'type(%s) is %s' % (arg, c.name)
             from ..escape import implied_at
-            if not (isinstance(g, ast.If) and n in g.body and norm(g.test) in (want, alt)) \
+            if not (isinstance(g, ast.If) and n in g.body and norm(g.test) in (want, alt, '%s is %s.__class__' % (c.name, arg), '%s is type(%s)' % (c.name, arg))) \
                     and not (implied_at(repo, f, n, want) is True or implied_at(repo, f, n, alt) is True):
                 bad = True
                 r.violated(key, common.site_of(f, n), '%s returns its argument itself under `%s`: only an object whose class is exactly %s may be shared (a mutable subclass instance would be aliased)'
